@@ -13,7 +13,7 @@ PROPERTY = "C09"
 LEVEL = "exploration"
 BUDGET_S = {"quick": 50, "thorough": 900}
 FLOOR = {"quick": 3000, "thorough": 100000}
-MUST_REACH = ("table_entries_judged", "protocol_numbers_judged", "splitter_cases_judged", "number_roundtrips_judged", "platform_switch_histories", "config_level_renderings", "protocol_reassign_histories")
+MUST_REACH = ("table_entries_judged", "protocol_numbers_judged", "splitter_cases_judged", "number_roundtrips_judged", "platform_switch_histories", "config_level_renderings", "protocol_reassign_histories", "generated_line_renderings", "nested_switch_renderings")
 RULE = ("complete enumeration: {asa,ios,nxos} x version strings {'', '15', '15.2(02)SY', '16.09.06', '9.3(8)'} x {tcp,udp} x "
         "every table name (name -> number vs oracle/names.py; number -> rendered name -> parsed back), every protocol "
         "number 0..255 x platform x protocol_nr x has_port and every protocol name x platform, one ACE per table name on "
@@ -158,6 +158,74 @@ def run(ctx) -> None:
                     ctx.violation(case, "config-level function renders a name that this platform/version table does not have",
                                   f"{num} -> {shown!r} (table {platform}/{version or 'default'}/{proto})")
             ctx.count("config_level_renderings")
+        # grouped ACL of that platform/version: switches toggled on the *nested* objects re-render names from the same table
+        cfg2 = f"{head}\n remark = block\n{body}\n"
+        case = {"function": "acls+group_by, nested switches", "table": [platform, version, proto]}
+        try:
+            acl = cisco_acl.acls(cfg2, platform=platform, version=version, group_by="= ")[0]
+            block = acl.items[0]
+            nested = [i for i in block.items if type(i).__name__ == "Ace"]
+            how = {0: "ace.port_nr toggled", 1: "ace.copy()", 2: "group.port_nr toggled", 3: "group.copy()"}
+            for variant in range(4):
+                if variant == 0:
+                    for ace in nested:
+                        ace.port_nr = True
+                        ace.port_nr = False
+                    shown_aces = nested
+                elif variant == 1:
+                    shown_aces = [ace.copy() for ace in nested]
+                elif variant == 2:
+                    block.port_nr = True
+                    block.port_nr = False
+                    shown_aces = [i for i in block.items if type(i).__name__ == "Ace"]
+                else:
+                    shown_aces = [i for i in block.copy().items if type(i).__name__ == "Ace"]
+                if len(shown_aces) != len(nums):
+                    ctx.violation(case, "nested switch lost entries", f"{how[variant]}: {len(shown_aces)} of {len(nums)}")
+                    break
+                for ace, num in zip(shown_aces, nums):
+                    shown = ace.line.split()[-1]
+                    if ace.dstport.items != [num]:
+                        ctx.violation(case, "a switch on a nested object changed a port number", f"{how[variant]}: {num} -> {ace.dstport.items}")
+                    elif not shown.isdigit() and n2p.get(shown) != num:
+                        ctx.violation(case, "a nested object renders a name that this platform/version table does not have",
+                                      f"{how[variant]}: {num} -> {shown!r} (table {platform}/{version or 'default'}/{proto})")
+                        break
+                ctx.count("nested_switch_renderings")
+        except Exception as ex:  # pylint: disable=broad-except
+            ctx.violation(case, "grouped configuration-level ACL raised", f"{type(ex).__name__}: {str(ex)[:200]}")
+        # the line generators render names as well: same table, same numbers (one request per side)
+        for side in ("srcports", "dstports") if not version else ():  # range_ports has no version parameter
+            case = {"function": "range_ports", "side": side, "table": [platform, version, proto]}
+            try:
+                lines = cisco_acl.range_ports(**{side: ",".join(str(n) for n in nums)}, line=f"permit {proto} any any",
+                                              platform=platform, port_count=1)
+            except Exception as ex:  # pylint: disable=broad-except
+                ctx.violation(case, "range_ports raised on numeric ports", f"{type(ex).__name__}: {ex}")
+                continue
+            if len(lines) != len(nums):
+                ctx.violation(case, "range_ports lost or added lines", f"{len(lines)} of {len(nums)}")
+                continue
+            for line, num in zip(lines, nums):
+                toks = line.split()
+                shown = toks[toks.index("eq") + 1] if "eq" in toks else "?"
+                if not shown.isdigit() and n2p.get(shown) != num:
+                    ctx.violation(case, "range_ports renders a name that this platform/version table does not have",
+                                  f"{num} -> {shown!r} (table {platform}/{version or 'default'}/{proto})")
+                    continue
+                if shown.isdigit() and int(shown) != num:
+                    ctx.violation(case, "range_ports changed a port number", f"{num} -> {shown}")
+                    continue
+                try:
+                    back = cisco_acl.Ace(line, platform=platform)
+                    got = (back.srcport if side == "srcports" else back.dstport).items
+                    if got != [num]:
+                        ctx.violation(case, "a generated line reads back as another port", f"{line!r}: {num} -> {got}")
+                except Exception as ex:  # pylint: disable=broad-except
+                    ctx.violation(case, "a generated line is not accepted by the parser of the same platform/version",
+                                  f"{line!r}: {type(ex).__name__}: {str(ex)[:120]}")
+            ctx.count("generated_line_renderings")
+            ctx.judged(sig=("range_ports", platform, proto, side), n=len(nums))
             ctx.judged(sig=("cfg", func, platform, version, proto), n=len(nums))
 
     # 2. protocols
